@@ -445,6 +445,10 @@ def build_c01_corpus(ctx, corp, n_exh, n_sampled, weights=None, max_nodes=12, sa
     for body in gen.sampled(rng, n_sampled, max_nodes, weights):
         body = transform(body, rng, gen.Ctr())
         p = gen.Program("s%04d" % pid, body, named_result=(pid % 2 == 0), family="smp")
+        # the same grammar in every generator form: function, function literal, value / pointer
+        # method, generic function, nested literal generator reached through YieldFrom
+        p.form = gen.FORMS[pid % len(gen.FORMS)]
+        p.tags.add("form:" + p.form)
         pid += 1
         corp.add(p)
     for name, body in directed_c01():
